@@ -296,7 +296,7 @@ static int split_cmdline(const wchar_t *cmd, wchar_t **args, size_t *lens, int m
 }
 
 // ---------------------------------------------------------------- checks
-static long st_cmd_cases, st_env_cases, st_viol, st_alloc_runs, st_alloc_fired, st_args, st_env_entries, st_distinct;
+static long st_cmd_cases, st_env_cases, st_viol, st_alloc_runs, st_alloc_fired, st_args, st_env_entries, st_distinct, st_win_alloc_faults;
 static int verbose;
 
 static void hexs(const char *s, char *out, size_t cap)
@@ -551,6 +551,48 @@ static void check_handles(void)
   create_calls = 0;
   HANDLE proc = INVALID_HANDLE_VALUE;
   char msg[200];
+  if (st_handle_cases % 16 == 5) {
+    // every allocation of the launch failing in turn (with a working directory and extra environment, so that
+    // every conversion runs): "not enough memory" comes back whatever the thread's last error happened to be,
+    // no process is created, no handle stored, nothing stays allocated
+    static const char *extra[] = { "VX1=a", "VX2=b b", NULL };
+    o.env.extra = extra;
+    o.working_directory = "C:\\some dir";
+    W->ntr = 0;
+    wrap_reset_case();
+    w_ledger = 1;
+    process_start(&proc, argv, o);
+    int nalloc = 0;
+    for (uint32_t i = 0; i < W->ntr && i < W_MAXTR; i++)
+      if (W->tr[i].fn == F_calloc || W->tr[i].fn == F_malloc || W->tr[i].fn == F_realloc) nalloc++;
+    for (int k = 0; k < nalloc; k++) {
+      wrap_reset_case();
+      w_ledger = 1;
+      wrap_add_fault(0, F_anyalloc, k, ENOMEM);
+      SetLastError(rnd() % 2 ? 0 : 183);   // stale value from some earlier, unrelated call
+      create_calls = 0;
+      n_closed = 0;
+      proc = INVALID_HANDLE_VALUE;
+      long lb = wrap_live_allocs();
+      int ra = process_start(&proc, argv, o);
+      long la = wrap_live_allocs();
+      if (!W->fault[0].fired) continue;
+      st_win_alloc_faults++;
+      if (ra != -(int) ERROR_NOT_ENOUGH_MEMORY) {
+        snprintf(msg, sizeof msg, "allocation %d of the launch failed, process_start returned %d (CreateProcessW calls: %d), expected %d", k, ra, create_calls, -(int) ERROR_NOT_ENOUGH_MEMORY);
+        hviol("win-fault-wrong-error", msg, h);
+      }
+      if (proc != INVALID_HANDLE_VALUE && ra < 0) hviol("win-fault-handle-set", "a process handle was stored although start failed", h);
+      if (create_calls != 0) hviol("win-fault-process-created", "CreateProcessW called after an allocation had failed", h);
+      if (la != lb) {
+        snprintf(msg, sizeof msg, "%ld allocations live after the failed start (allocation %d failing)", la - lb, k);
+        hviol("win-fault-leak", msg, h);
+      }
+    }
+    wrap_reset_case();
+    w_ledger = 1;
+    return;
+  }
   win_fail_at = st_handle_cases % 4 == 0 ? 1 + (int) (rnd() % 4) : 0;
   static const DWORD ERRS[] = { 2, 5, 8, 87, 1450 };
   win_fail_err = ERRS[rnd() % 5];
